@@ -113,6 +113,83 @@ def r13_1(ctx):
               f"CELL_WIDTHS is written at {writers}")
 
 
+def _bisect_form(ctx, f, cp) -> bool:
+    """Shape B of the width-table lookup: a library bisection over a projection of CELL_WIDTHS.
+
+    ENDS = [end for _s, end, _w in CELL_WIDTHS];  i = bisect_left(ENDS, cp)       -> first range whose end >= cp   (correct)
+    STARTS = [start for start, _e, _w in ...];    i = bisect_right(STARTS, cp) - 1 -> last range whose start <= cp  (correct)
+    The other two pairings are off by one exactly at a range boundary and are reported.  Returns False when no bisect call is found.
+    """
+    m = f.module
+    calls = [c for c in walk_local(f.node) if isinstance(c, ast.Call) and call_name(c) in ("bisect_left", "bisect_right", "bisect") and len(c.args) >= 2 and norm(c.args[1]) == cp]
+    if len(calls) != 1:
+        return False
+    c = calls[0]
+    side = "left" if call_name(c) == "bisect_left" else "right"
+    proj_name = norm(c.args[0])
+    proj = m.module_const(proj_name) if isinstance(c.args[0], ast.Name) else None
+    if proj is None:
+        for n in walk_local(f.node):
+            if isinstance(n, ast.Assign) and norm(n.targets[0]) == proj_name:
+                proj = n.value
+    if not (isinstance(proj, ast.ListComp) and len(proj.generators) == 1 and not proj.generators[0].ifs and norm(proj.generators[0].iter) == "CELL_WIDTHS" and isinstance(proj.generators[0].target, ast.Tuple) and len(proj.generators[0].target.elts) == 3 and isinstance(proj.elt, ast.Name)):
+        raise AnalysisError(f"_get_codepoint_cell_size: `{proj_name}` is not a one-component projection [x for a, b, c in CELL_WIDTHS]")
+    comps = [norm(e) for e in proj.generators[0].target.elts]
+    which = comps.index(proj.elt.id) if proj.elt.id in comps else None
+    if which not in (0, 1):
+        raise AnalysisError("_get_codepoint_cell_size: the bisected list is neither the range starts nor the range ends")
+    # how the result is used as an index: i or i - 1
+    st = c
+    while not isinstance(st, ast.stmt):
+        st = m.parent_of[st]
+    minus_one = isinstance(st, ast.Assign) and isinstance(st.value, ast.BinOp) and isinstance(st.value.op, ast.Sub) and const_int(st.value.right) == 1 and st.value.left is c
+    plain = isinstance(st, ast.Assign) and st.value is c
+    if not (minus_one or plain):
+        raise AnalysisError(f"_get_codepoint_cell_size: cannot read how the bisect result is used: `{short(st)}`")
+    where = f"{m.relpath}:{c.lineno}"
+    if which == 1:
+        ok = side == "left" and plain
+        ctx.check(ok, f.fq, short(st), where, "bisect_left over the range ENDS: the first range whose end >= code point",
+                  f"`{short(st)}` over the range ends: bisect_{side}{' - 1' if minus_one else ''} skips the range whose END equals the code point (the last code point of every range - every single-code-point range such as U+2705 - gets the default width 1)")
+    else:
+        ok = side == "right" and minus_one
+        ctx.check(ok, f.fq, short(st), where, "bisect_right over the range STARTS minus one: the last range whose start <= code point",
+                  f"`{short(st)}` over the range starts: bisect_{side}{' - 1' if minus_one else ''} does not select the last range whose start <= code point (a code point equal to a range START is looked up in the wrong range)")
+    # the hit test against the other end of the selected range, and the -1 -> 0 mapping / default 1
+    idx = norm(st.targets[0])
+    unpack = None
+    for n in walk_local(f.node):
+        if isinstance(n, ast.Assign) and isinstance(n.targets[0], ast.Tuple) and len(n.targets[0].elts) == 3 and isinstance(n.value, ast.Subscript) and norm(n.value.value) == "CELL_WIDTHS" and norm(n.value.slice) == idx:
+            unpack = n
+    if unpack is None:
+        raise AnalysisError("_get_codepoint_cell_size: cannot find `start, end, width = CELL_WIDTHS[index]`")
+    s_, e_, w_ = (norm(x) for x in unpack.targets[0].elts)
+    g = cfgmod.build(f.node)
+    from ..yieldpaths import canon_test
+    rets = [r for r in walk_local(f.node) if isinstance(r, ast.Return)]
+    hit = [r for r in rets if w_ in {n.id for n in ast.walk(r.value) if isinstance(n, ast.Name)}]
+    if len(hit) != 1:
+        raise AnalysisError("_get_codepoint_cell_size: expected exactly one return of the table width")
+    facts = set()
+    for nid in g.nodes_of(hit[0]):
+        for t, v in g.branch_facts(nid):
+            for a, tv in canon_test(t, v):
+                facts.add((a, tv))
+    other = s_ if which == 1 else e_
+    want = {(f"{cp} >= {other}", True), (f"{other} <= {cp}", True), (f"{cp} < {other}", False), (f"{other} > {cp}", False)} if which == 1 else {(f"{cp} <= {other}", True), (f"{other} >= {cp}", True), (f"{cp} > {other}", False), (f"{other} < {cp}", False)}
+    ctx.check(bool(want & facts), f.fq, short(hit[0]), f"{m.relpath}:{hit[0].lineno}", f"the width is returned only when the code point lies inside the selected range (`{other}` tested)",
+              f"the table width is returned without testing the code point against `{other}` of the selected range: code points in the gaps between ranges get a neighbour's width")
+    bound = {(f"{idx} < len(CELL_WIDTHS)", True), (f"len(CELL_WIDTHS) > {idx}", True), (f"{idx} >= len(CELL_WIDTHS)", False)} if which == 1 else {(f"{idx} >= 0", True), (f"0 <= {idx}", True), (f"{idx} < 0", False)}
+    ctx.check(bool(bound & facts), f.fq, short(unpack), f"{m.relpath}:{unpack.lineno}", "the index is inside the table where it is used",
+              f"CELL_WIDTHS[{idx}] is read without the bound test the bisection needs ({'index < len' if which == 1 else 'index >= 0'}): IndexError / wrap-around for code points beyond the table")
+    v = hit[0].value
+    okv = isinstance(v, ast.IfExp) and norm(v.test) in (f"{w_} == -1", f"-1 == {w_}") and const_int(v.body) == 0 and norm(v.orelse) == w_
+    ctx.check(okv, f.fq, short(hit[0]), f"{m.relpath}:{hit[0].lineno}", "hit returns 0 for -1 else the table width", "hit does not return `0 if width == -1 else width`")
+    miss = [r for r in rets if r is not hit[0]]
+    ctx.check(bool(miss) and all(const_int(r.value) == 1 for r in miss), f.fq, "miss", f.where, "miss returns 1", "a miss does not return the default width 1")
+    return True
+
+
 def r13_2(ctx):
     ctx.rule("R13.2", "binary search in _get_codepoint_cell_size: on cp<start only the upper bound moves (below index), on cp>end only the lower bound (above index); hit returns 0 for -1 else the table width; miss returns 1; probes the CELL_WIDTHS table")
     f = ctx.repo.fn("cells:_get_codepoint_cell_size")
@@ -137,6 +214,8 @@ def r13_2(ctx):
                 ctx.violation(f.fq, norm(n), f"{f.module.relpath}:{n.lineno}",
                               f"the search's upper bound starts at `{norm(v)}`, not at the last index len(table) - 1: a code point above the last table entry probes past the end of the table (IndexError) or skips entries")
     if lower is None or upper is None:
+        if _bisect_form(ctx, f, cp):
+            return
         raise AnalysisError("cannot identify lower/upper bound variables of the search")
     tbl = aliases.get(table_name)
     ctx.check(table_name == "CELL_WIDTHS" or (tbl is not None and norm(tbl) == "CELL_WIDTHS"), f.fq, f"table {table_name}", f.where,
